@@ -73,23 +73,30 @@ class Pipeline(Machine):
             r = s.random()
             if r < 0.05:
                 ops.append({"kind": "restart", "i": i})
-            elif prop == "C05" and r < 0.25 and descs:
+            elif prop == "C05" and r < 0.30 and descs:
                 b = s.choice(blobs)
                 ops.append({"kind": "mutate", "i": i, "blob": b[0], "how": s.choice(["same_size", "grow", "shrink", "empty",
                                                                                      "boundary", "replace"]),
                             "size": s.choice(SIZES[:8])})
-            elif prop == "C05" and r < 0.30:
+            elif prop == "C05" and r < 0.35:
                 ops.append({"kind": "chdir", "i": i, "where": s.choice(["root", "sub", "home", "files", "files"])})
             elif r < (0.65 if prop == "C05" else 0.40) or not arts:
                 again = descs and s.chance(0.45)
-                d = s.choice(descs) if again else f"d{i}"
-                if not again:
-                    descs.append(d)
                 out = f"a{i}"
-                ops.append({"kind": "create", "i": i, "desc": d, "gen": s.u64() % (1 << 48), "features": feats,
-                            "size": s.randint(0, 3), "payloads": s.randint(0, 3), "dep_depth": s.choice([0, 0, 1, 2, 3]),
-                            "dep_form": s.choice(["inline", "path", "mixed"]), "fmt": s.choice(["yaml", "json"]),
-                            "entry": s.choice(["cli", "cli", "lib", "obj"]), "out": out, "dirty": s.choice(self.DIRTY_VARIANTS)})
+                if again:
+                    # the *same* description again (same generator seed and parameters), possibly after files changed;
+                    # through the library the very same description object is passed again
+                    first = s.choice(descs)
+                    op_ = dict(first, i=i, out=out, dirty=s.choice(self.DIRTY_VARIANTS))
+                    op_["entry"] = "obj" if first["entry"] == "obj" and s.chance(0.8) else s.choice(["cli", "lib", "obj"])
+                    ops.append(op_)
+                else:
+                    ops.append({"kind": "create", "i": i, "desc": f"d{i}", "gen": s.u64() % (1 << 48), "features": feats,
+                                "size": s.randint(0, 3), "payloads": s.randint(0, 3), "dep_depth": s.choice([0, 0, 1, 2, 3]),
+                                "dep_form": s.choice(["inline", "path", "mixed"]), "fmt": s.choice(["yaml", "json"]),
+                                "entry": s.choice(["cli", "cli", "lib", "obj", "obj"]), "out": out,
+                                "dirty": s.choice(self.DIRTY_VARIANTS)})
+                    descs.append(ops[-1])
                 arts.append(out)
             elif r < 0.50:
                 ops.append({"kind": "hsign", "i": i, "src": s.choice(arts), "out": f"a{i}", "alg": s.choice(["es-256", "eddsa", "es-384"]),
@@ -310,7 +317,14 @@ class Pipeline(Machine):
 
         def run(fl):
             if op["entry"] == "obj":
-                return world.create_from_obj(host, desc, out_rel, faults=fl)
+                # a library caller keeps its description object and passes it again for the next build
+                objs = model.setdefault("desc_objs", {})
+                key = (op["desc"], model["cwd"], host.generation)
+                if key in objs and not dep_exp:
+                    ex["description_object_reused"] = ex.get("description_object_reused", 0) + 1
+                    return world.create_from_obj(host, objs[key], out_rel, faults=fl, reuse_obj=True)
+                objs[key] = copy.deepcopy(desc)
+                return world.create_from_obj(host, objs[key], out_rel, faults=fl, reuse_obj=True)
             return world.create(host, copy.deepcopy(desc), out_rel, fmt=op["fmt"], entry=op["entry"], faults=fl,
                                 desc_rel=f"{op['desc']}.{op['fmt']}")
 
